@@ -86,10 +86,12 @@ func (g *gg) lit() string {
 	case 1:
 		return g.pick("floatlit", "1.5", "0.25", "1e3", "2.5e-3", ".5")
 	case 2:
-		return g.pick("strlit", `""`, `"a"`, `"a b"`, `"\n\t\""`, `"//not a comment"`, `"/* nor this */"`, `"é中"`, `"%v@x'"`)
+		return g.pick("strlit", `""`, `"a"`, `"a b"`, `"\n\t\""`, `"//not a comment"`, `"/* nor this */"`, `"é中"`, `"%v@x'"`,
+			// Unicode space separators written literally inside a literal are content, not layout
+			"\"標題\u3000副題\"", "\"1\u00a0000\u2003€\"")
 	case 3:
 		g.feat("raw-string")
-		return g.pick("rawlit", "`raw`", "`a\n\tb`", "`  trailing  \n\n  blank`", "`// x`")
+		return g.pick("rawlit", "`raw`", "`a\n\tb`", "`  trailing  \n\n  blank`", "`// x`", "`wide\u3000blank\u00a0here`")
 	case 4:
 		return g.pick("runelit", `'a'`, `'\n'`, `'\''`, `'é'`, `'\x00'`)
 	case 5:
@@ -182,7 +184,7 @@ func (g *gg) comment(inBlock bool) string {
 	switch g.int("cmtkind", 0, 6) {
 	case 0, 1, 2:
 		g.feat("line-comment")
-		return "//" + g.pick("cmtsp", " ", " ", "", "  ", "\t") + g.pick("cmttext", "note", "TODO: fix", "a  b", "x := 1", "中文 é", "trailing blank  ", "{ brace", "1. item")
+		return "//" + g.pick("cmtsp", " ", " ", "", "  ", "\t") + g.pick("cmttext", "note", "TODO: fix", "a  b", "x := 1", "中文 é", "trailing blank  ", "{ brace", "1. item", "全角\u3000空白 and no-break\u00a0space")
 	case 3:
 		g.feat("block-comment")
 		return "/*" + g.pick("bcsp", " ", "", "  ") + g.pick("bctext", "block", "a * b", "x // y") + g.pick("bcsp2", " ", "", "\t") + "*/"
